@@ -573,7 +573,7 @@ def construct(spec: list[dict], names=True) -> Built:
             b.obj[i] = b.node[i] = n
         elif k == "var":
             dist = make_dist(b, f"{it['name']}_log_prob", it["dist"], un) if it["dist"] else None
-            v = Var(jnp.asarray(it["val"], jnp.float32), dist, name="" if un else it["name"])
+            v = Var(int(it["val"]) if it.get("int_init") else jnp.asarray(it["val"], jnp.float32), dist, name="" if un else it["name"])
             if it.get("role") == "obs":
                 v.observed = True
             elif it.get("role") == "param":
